@@ -197,7 +197,7 @@ class ProgGen:
             choices += ["index", "index"]
         if "core" in self.features:
             # the fragment of Model/BitSem.lean
-            choices = ["if", "block"] + (["cmp", "cmp", "eq", "logic", "logic", "not"] if k == "bool" else ["arith", "arith", "arith"] + (["unary"] if signed(ty) else []))
+            choices = ["if", "block"] + (["cmp", "cmp", "eq", "logic", "logic", "not", "castbool"] if k == "bool" else ["arith", "arith", "arith", "cast"] + (["unary"] if signed(ty) else []))
         elif k == "bool":
             choices += ["cmp", "cmp", "eq", "logic", "logic", "not", "castbool"]
         elif k == "int":
@@ -275,7 +275,7 @@ class ProgGen:
 
     def e_cmp(self, ty, d, pure):
         t = self.int_ty()
-        op = self.rng.choice(["<", ">"] if "core" in self.features else ["<", ">", "<=", ">="])
+        op = self.rng.choice(["<", ">", "<=", ">="])
         # `<=` / `>=` are expanded by the parser into two copies of the operands: keep those pure
         return self.binop(op, t, self.expr(t, d - 1, True), self.expr(t, d - 1, True))
 
